@@ -1,5 +1,6 @@
 // vcheck run <ID>   — run one property check (tier from VERIF_TIER)
 // vcheck list       — list registered checks
+// vcheck replay <f> — re-execute a recorded (scenario, schedule) replay file
 package main
 
 import (
@@ -7,13 +8,13 @@ import (
 	"os"
 	"sort"
 
+	_ "github.com/formancehq/ledger/verifh/pfault"
 	_ "github.com/formancehq/ledger/verifh/phttp"
 	_ "github.com/formancehq/ledger/verifh/pimport"
 	_ "github.com/formancehq/ledger/verifh/pnum"
 	_ "github.com/formancehq/ledger/verifh/pquery"
+	"github.com/formancehq/ledger/verifh/props"
 	_ "github.com/formancehq/ledger/verifh/pschema"
-	_ "github.com/formancehq/ledger/verifh/pfault"
-	_ "github.com/formancehq/ledger/verifh/props"
 	"github.com/formancehq/ledger/verifh/reg"
 )
 
@@ -39,6 +40,13 @@ func main() {
 			os.Exit(2)
 		}
 		os.Exit(c())
+	case "replay":
+		// schedule replays (K2 checks of package props); other packages replay through
+		// their TestReplay unit tests
+		if len(os.Args) < 3 {
+			os.Exit(2)
+		}
+		os.Exit(props.ReplayConc(os.Args[2]))
 	default:
 		fmt.Println("unknown command")
 		os.Exit(2)
